@@ -361,22 +361,29 @@ pub fn run(ctx: &Ctx) -> Verdict {
     v.assumptions = vec!["clause lists of run-time length use the DynClause hook".into()];
     let known = vcore::known_finding("C15", SIG_SOLE_RC);
     v.subs.push(crate::replay_corpus(ctx, &|sub, case| replay(sub, case)));
-    let n = ctx.tier.pick(640, 12_000) as usize;
+    let n = ctx.tier.pick(1280, 24_000) as usize;
     let exclude_sole = known.is_some();
     if let Some(f) = &known {
         v.known_findings.push((SIG_SOLE_RC.to_string(), f.what_fails.clone()));
     }
-    let strat = case_strategy().prop_map(move |mut c| {
-        if exclude_sole {
-            c.recv = match c.recv {
-                Recv::RcSole => Recv::RcShared,
-                Recv::ArcSole => Recv::ArcShared,
-                r => r,
-            };
+    let batches = n.div_ceil(1600);
+    for b in 0..batches {
+        let strat = case_strategy().prop_map(move |mut c| {
+            if exclude_sole {
+                c.recv = match c.recv {
+                    Recv::RcSole => Recv::RcShared,
+                    Recv::ArcSole => Recv::ArcShared,
+                    r => r,
+                };
+            }
+            c
+        });
+        let sub = if batches == 1 { "delegation".to_string() } else { format!("delegation-{b}") };
+        v.subs.push(e2::run(ctx, &sub, strat, (n / batches).max(1), &spec()));
+        if v.subs.last().map(|s| s.failure.is_some() || s.inconclusive.is_some()).unwrap_or(false) {
+            break;
         }
-        c
-    });
-    v.subs.push(e2::run(ctx, "delegation", strat, n.min(1600), &spec()));
+    }
     v
 }
 
